@@ -49,8 +49,15 @@ def main():
         with vlib.RepoLock():
             mod.run(rep, a.tier, a.seed)
     except Exception:
-        # a crash of the machinery itself is not evidence about the property: report it loudly, exit 2
         traceback.print_exc()
+        frames = traceback.extract_tb(sys.exc_info()[2])
+        if any('/props/' in f.filename or '/pygaps/' in f.filename for f in frames):
+            # the exploration of the implementation aborted (the harness met behaviour of pyGAPS it cannot even process; this never
+            # happens on the unchanged tree): the correspondence between model and code is no longer established -> a broken
+            # obligation, reported as a violation without a concrete input unless the part already explored found one
+            rep.broken_obligation('correspondence:exploration-aborted', traceback.format_exc()[-1500:])
+            sys.exit(rep.finish())
+        # a crash of the machinery itself (build system, file system) is not evidence about the property: report it loudly, exit 2
         print('ERROR %s: the check machinery failed (no verdict)' % pid)
         sys.exit(2)
     sys.exit(rep.finish())
